@@ -46,6 +46,7 @@ def parseKind : String → Option TKind
   | "sse" => some .sse
   | "stateful" => some .stateful
   | "stateless" => some .stateless
+  | "statefulnoid" => some .stateful   -- stateful, the server assigns no session IDs: same negotiation
   | _ => none
 
 def parseSubset (t : String) : Option (Option (List String)) :=
@@ -105,6 +106,14 @@ def parseDisc (http : Bool) (t : String) : Option (String → DiscResp) :=
   else if t.startsWith "u" || (t.startsWith "U" && http) then
     (parseList rest).map fun l => wire fun v => if l.contains v then .result l else .unsupported l
   else if t.startsWith "r" then (parseList rest).map fun l => wire fun _ => .result l
+  else if t.startsWith "n" then (parseList rest).map fun l => wire fun _ => .unsupported l
+  else if t.startsWith "x" then
+    match rest.splitOn ":" with
+    | [a, b] =>
+      match parseList a, parseList b with
+      | some l, some res => some (wire fun v => if l.contains v then .result res else .unsupported l)
+      | _, _ => none
+    | _ => none
   else none
 
 def parseInit (t : String) : Option (String → Option String) :=
